@@ -974,10 +974,24 @@ func (g *goLayouts) readSummary(fn *types.Func) *readHelper {
 	g.readSum[fn] = s
 	defer func() { s.busy = false }()
 	fd := g.decls[fn]
-	if fd == nil || fd.Recv != nil {
+	if fd == nil || fd.Body == nil {
 		return s
 	}
 	hasBuf := false
+	// a method of a cursor type: a struct that carries the record buffer (or the stream) in a field
+	if fd.Recv != nil && len(fd.Recv.List) == 1 {
+		if _, st := structOf(g.info.TypeOf(fd.Recv.List[0].Type)); st != nil {
+			for i := 0; i < st.NumFields(); i++ {
+				ft := st.Field(i).Type()
+				if isByteSliceType(ft) || types.TypeString(ft, nil) == "io.Reader" {
+					hasBuf = true
+				}
+			}
+		}
+		if !hasBuf {
+			return s
+		}
+	}
 	for _, fl := range fd.Type.Params.List {
 		t := g.info.TypeOf(fl.Type)
 		if isByteSliceType(t) || types.TypeString(t, nil) == "io.Reader" {
@@ -1204,7 +1218,7 @@ func (g *goLayouts) decoderLayout(fd *ast.FuncDecl) *decResult {
 				return
 			}
 		}
-		if se, ok := val.(*ast.SliceExpr); ok && se.High == nil {
+		if g.isOpenTail(val) {
 			res.tail = snake(field)
 		}
 	}
@@ -1234,7 +1248,7 @@ func (g *goLayouts) decoderLayout(fd *ast.FuncDecl) *decResult {
 	// a local `data := buf[offset:]` used as tail
 	ast.Inspect(fd.Body, func(n ast.Node) bool {
 		if as, ok := n.(*ast.AssignStmt); ok && len(as.Lhs) == 1 && len(as.Rhs) == 1 {
-			if se, ok := as.Rhs[0].(*ast.SliceExpr); ok && se.High == nil && isByteSliceType(g.info.TypeOf(se.X)) {
+			if g.isOpenTail(as.Rhs[0]) {
 				if id, ok := as.Lhs[0].(*ast.Ident); ok {
 					obj := g.info.ObjectOf(id)
 					// which field receives it?
@@ -1622,4 +1636,30 @@ func (c *encCtx) aliasBuffers(body *ast.BlockStmt) {
 			return true
 		})
 	}
+}
+
+// isOpenTail: buf[off:] of a byte slice, or a call of a package function / cursor method whose body is `return x[off:]`.
+func (g *goLayouts) isOpenTail(e ast.Expr) bool {
+	e = stripParenConv(g, e)
+	if se, ok := e.(*ast.SliceExpr); ok {
+		return se.High == nil && isByteSliceType(g.info.TypeOf(se.X))
+	}
+	ce, ok := e.(*ast.CallExpr)
+	if !ok {
+		return false
+	}
+	fn := g.calleeOf(ce)
+	if fn == nil {
+		return false
+	}
+	fd := g.decls[fn]
+	if fd == nil || fd.Body == nil || len(fd.Body.List) != 1 {
+		return false
+	}
+	rs, ok := fd.Body.List[0].(*ast.ReturnStmt)
+	if !ok || len(rs.Results) != 1 {
+		return false
+	}
+	se, ok := stripParenConv(g, rs.Results[0]).(*ast.SliceExpr)
+	return ok && se.High == nil && isByteSliceType(g.info.TypeOf(se.X))
 }
